@@ -3,7 +3,7 @@ import glob, json, os, re
 from vlib import VERIF, REPO, load_known, read_ndjson, write_ndjson, pmap, Infra, NCPU
 
 ASSUME = [
-    "layout transformations are implemented on patch text in lib/prop_c13.py (T1 comment lines, T2 blank lines, T3 naming the change, T4 renaming metavariables that do not name imports, T5 regrouping/reordering/;-joining declarations, T6 re-spacing both sides identically, T7 context line <-> identical -/+ pair on elision-free lines)",
+    "layout transformations are implemented on patch text in lib/prop_c13.py (T1 comment lines, T2 blank lines, T3 naming the change, T4 renaming metavariables that do not name imports, T5 regrouping/reordering/;-joining declarations, T6 re-spacing both sides identically, T7 context line <-> identical -/+ pair on elision-free lines, T8 context line without its space prefix)",
     "results are compared as terms of harness/alpha.go (syntax trees without positions and comments); errors are compared as error / no error",
     "patches with more than one '...' per side are not re-spaced (their association is documented as layout dependent, README known issue #9)",
 ]
@@ -87,6 +87,10 @@ EXTRA_CASES = [
          src="package a\n\nfunc f() {\n\tv := compute(-offset, +limit, *ptr, &val, !ok, ^mask, <-ch)\n\tuse(v)\n}\n\nfunc g() {\n\tv := compute(offset, limit, *ptr, &val, !ok, ^mask, <-ch)\n\tuse(v)\n}\n"),
     dict(name="extra/binary-continuation", patch="@@\nvar x, y expression\n@@\n total(x +\n y -\n-1)\n+2)\n",
          src="package a\n\nfunc f() {\n\ttotal(a + b - 1)\n\ttotal(a - b - 1)\n}\n"),
+    dict(name="extra/leading-elision", patch="@@\n@@\n ...\n-foo()\n+bar()\n",
+         src="package a\n\nfunc f() {\n\tfirst()\n\tsecond()\n\tfoo()\n\tlast()\n}\n"),
+    dict(name="extra/elision-between", patch="@@\nvar x identifier\n@@\n x := open()\n ...\n-x.close()\n+x.Close()\n",
+         src="package a\n\nfunc f() {\n\tp := open()\n\tuse(p)\n\tmore(p)\n\tp.close()\n\tlast()\n}\n"),
     dict(name="extra/decrement-stmt", patch="@@\nvar i identifier\n@@\n i--\n-work(i)\n+work2(i)\n i++\n",
          src="package a\n\nfunc f(n int) {\n\tn--\n\twork(n)\n\tn++\n}\n"),
 ]
@@ -265,16 +269,32 @@ def t7_pair(lines, changes, rng):
     return out if did else None
 
 
-TRANSFORMS = {"T1": t1_comments, "T2": t2_blank, "T3": t3_name, "T4": t4_rename, "T5": t5_regroup, "T6": t6_respace, "T7": t7_pair}
+def t8_unprefix(lines, changes, rng):
+    """A context line keeps its meaning without its space prefix (the prefix is only white space in front of
+    the Go code on both sides) as long as what follows does not start with a diff marker."""
+    out = list(lines)
+    did = False
+    for c in changes:
+        for i in c["body"]:
+            ln = out[i]
+            if ln.startswith(" ") and ln.strip() and ln[1:2] not in ("-", "+", "@", "#") and rng.random() < 0.8:
+                out[i] = ln[1:]
+                did = True
+    return out if did else None
+
+
+TRANSFORMS = {"T8": t8_unprefix, "T1": t1_comments, "T2": t2_blank, "T3": t3_name, "T4": t4_rename, "T5": t5_regroup, "T6": t6_respace, "T7": t7_pair}
 
 
 def variants(ctx, text, n):
     out = []
     names = sorted(TRANSFORMS)
     tries = 0
-    while len(out) < n and tries < 6 * n:
+    # every single transformation once, then seeded compositions of up to three
+    singles = [[t] for t in names]
+    while (singles or len(out) < n + len(names)) and tries < 6 * n + len(names):
         tries += 1
-        seq = [ctx.rng.choice(names) for _ in range(ctx.rng.choice([1, 1, 2, 3]))]
+        seq = singles.pop(0) if singles else [ctx.rng.choice(names) for _ in range(ctx.rng.choice([2, 2, 3]))]
         cur = text
         ok = True
         for t in seq:
